@@ -270,6 +270,8 @@ def evaluate__instance_expression(self: XPathToken, context: ta.ContextType = No
             qname = get_expanded_name(type_name, self.parser.namespaces)
         except KeyError as err:
             raise self.error('XPST0081', "namespace prefix {} not found".format(err))
+        except ValueError as err:
+            raise self.error('XPST0003', err) from None
 
         for position, item in enumerate(self[0].select(context)):
             try:
@@ -313,6 +315,8 @@ def evaluate__treat_expression(self: XPathToken, context: ta.ContextType = None)
             qname = get_expanded_name(type_name, self.parser.namespaces)
         except KeyError as err:
             raise self.error('XPST0081', 'prefix {} not found'.format(str(err)))
+        except ValueError as err:
+            raise self.error('XPST0003', err) from None
 
         if not qname.startswith('{') and not QName.is_valid(qname):
             raise self.error('XPST0003')
@@ -362,6 +366,8 @@ def evaluate__cast_expressions(self: XPathToken, context: ta.ContextType = None)
         atomic_type = get_expanded_name(type_name, self.parser.namespaces)
     except KeyError as err:
         raise self.error('XPST0081', 'prefix {} not found'.format(str(err)))
+    except ValueError as err:
+        raise self.error('XPST0003', err) from None
 
     if atomic_type in (XSD_NOTATION, XSD_ANY_ATOMIC_TYPE):
         raise self.error('XPST0080')
